@@ -128,6 +128,7 @@ AccessEvents(s) ==
      \cup { Rec("s_read_label", a, k, FALSE, <<>>, 0, "") : a \in CA, k \in {0, 1, 2} }
      \cup { Rec("get_labels", 0, 0, FALSE, <<>>, 0, ""), Rec("pointer_destinations", 0, 0, FALSE, <<>>, 0, "") }
      \cup { Rec("find_label", 0, 0, FALSE, nm, 0, "") : nm \in {StrL, StrM, StrA} }
+     \cup { Rec("equal_regions", a, k, FALSE, <<>>, b, "") : a \in {0, 4}, b \in {0, 4, 8}, k \in {0, 4, 5, 8} }
 
 Events(s) == IF Focus = "c04" THEN AccessEvents(s) ELSE StructEvents(s) \cup AnnotEvents(s)
 
